@@ -8,6 +8,7 @@ mod finalize;
 mod flatten;
 mod group;
 mod ileave;
+mod ileave2;
 mod indep;
 mod locks;
 mod probe;
@@ -45,6 +46,7 @@ fn run_case(case: &Sexp) -> String {
     "sched_race" => conc::run_sched_race(body),
     "locks" => locks::run_locks(body),
     "ileave" => ileave::run_ileave(body),
+    "ileave2" => ileave2::run_ileave2(body),
     "tofuture" => convert::run_tofuture(body),
     "tostream" => convert::run_tostream(body),
     "status" => convert::run_status(body),
